@@ -4,7 +4,29 @@ import json, os
 ROOT = os.path.dirname(os.path.dirname(os.path.abspath(__file__)))
 props = [json.loads(l) for l in open(os.path.join(ROOT, 'properties.jsonl'))]
 
+BOUNDED_NOTE = ('trusted: the reference semantics / readers under /verif (gen/, props/), CPython and pyparsing for the bounded part; '
+                'the VC generator pyvc, z3/cvc5 and the typed-field well-formedness schema for the proved part; termination and the run-time '
+                'semantics of emitted C++/MATLAB text are not verified.')
+PY_TECH = 'contract-based deductive verification (Python-ast -> SMT VCs, z3+cvc5) of the leaf emitters; run-time contracts and a reference-binding oracle on a bounded scope for the rest'
 CHECKS = {
+    'C01': dict(cat='other', design='7/C01',
+                text='Exact structural checks of the live grammar graph (results-name dataflow, flag/terminal table, end anchor) + bounded round trip: '
+                     'for seeded derivations of a reference grammar written from DOCS.md the abstracted real parse tree must equal the written tree. '
+                     'The matcher is third-party, so only the repository side could be under contract; no node-constructor proof is claimed yet.',
+                note=BOUNDED_NOTE, technique='structural inspection of the grammar objects built by the real code + bounded exhaustive/seeded round trip (bounded stand-in; nothing counted as proved)'),
+    'C02': dict(cat='other', design='7/C02',
+                text='Bounded: every type of every instantiated member on the scope (random + sanitised + curated scenarios with look-alike identifiers, This::X, '
+                     'multi-instantiation templates) is compared, through the emitted bindings, with capture-free reference substitution. instantiate_type itself is '
+                     'out of the VC generator\'s reach (aliased in-place mutation of a deep copy).',
+                note=BOUNDED_NOTE, technique='bounded stand-in: run-time comparison with reference substitution on a stated scope (no obligation counted as proved)'),
+    'C03': dict(cat='other', design='7/C03', text='Leaf emitters (constructors, dunders, properties, operators, variables, module-variable / qualification helpers) proved equal to their '
+                     'denotations for all inputs; _wrap_method / wrap_methods / wrap_functions under run-time contracts; presence, names, submodule placement, top-namespace and ignore '
+                     'filters decided on a bounded scope by reading real output back and comparing with the bindings declared by the reference semantics.',
+                note=BOUNDED_NOTE, technique=PY_TECH),
+    'C04': dict(cat='other', design='7/C04', text='Keyword-argument lists with defaults, lambda parameter lists, callee spellings with explicit template arguments, void detection and serialization '
+                     'bindings proved equal to their denotations for all inputs; forwarding of every emitted binding (types, names, defaults, order, static/instance, return) '
+                     'decided on the bounded scope against the reference semantics. The C++ behaviour of the text is assumed.',
+                note=BOUNDED_NOTE, technique=PY_TECH),
     'C05': dict(cat='proof',
                 text='Deductive proof on the real code: VCs generated from the current ast of 16 functions of MatlabWrapper '
                      '(allocator, all 10 allocation sites, their callers, mex_function, generate_wrapper) and one lemma are discharged '
@@ -16,8 +38,43 @@ CHECKS = {
                      'placed in each gateway call; termination not proved.',
                 technique='contract-based deductive verification: Python-ast -> SMT VCs (class invariant, loop invariants, ghost call-site log), z3+cvc5',
                 design='7/C05'),
+    'C06': dict(cat='other', design='7/C06', text='Bounded read-back of real MATLAB output on a structured scope: arities n..n-k, checkArguments counts, unwrap statements (name, position, mode), '
+                     'call arguments followed by omitted defaults, return outputs, and .m guards. Proofs of _expand_default_arguments etc. are not claimed yet.',
+                note=BOUNDED_NOTE, technique='bounded stand-in: generated .m/.cpp read back and compared with declared signatures on a stated scope'),
+    'C07': dict(cat='other', design='7/C07', text='Exact: end-of-input anchor and results-name dataflow of the live grammar; write-after-validation ordering of the three entry points (syntactic). '
+                     'Bounded: token-level corruptions of seeded modules are rejected or fully accounted for; failing runs leave scratch output trees byte-identical.',
+                note=BOUNDED_NOTE, technique='structural checks of grammar graph and entry-point control flow + bounded fault enumeration'),
+    'C08': dict(cat='other', design='7/C08', text='Instantiated names and callee spellings proved; count, order (first parameter slowest), naming, typedef instantiations and pass-through decided '
+                     'on the bounded scope against the reference product semantics.', note=BOUNDED_NOTE, technique=PY_TECH),
+    'C09': dict(cat='other', design='7/C09', text='Type spellings (Typename / Type / TemplatedType.to_cpp), qualification and keyword-argument / lambda-parameter agreement proved for all inputs; balance, '
+                     'arity agreement, declared-before-use module variables and qualification checked on real output by a strict reader on the bounded scope. No compiler is run.',
+                note=BOUNDED_NOTE, technique=PY_TECH),
+    'C10': dict(cat='other', design='7/C10', text='Bounded: the generated file tree and MEX preamble are compared with the entities declared by the reference semantics (classdefs in +package paths, '
+                     'function files, enumeration classdefs with numbering, one MEX source, collectors, clean-up, RTTI).', note=BOUNDED_NOTE,
+                technique='bounded stand-in: generated toolbox read back and compared with declared entities on a stated scope'),
+    'C12': dict(cat='other', design='7/C12', text='Exact: every composite grammar element carries the comment-ignore expression and skips white space; terminals spanning two tokens are the listed ones. '
+                     'Bounded: seeded re-layouts (blanks, newlines, block/line comments with braces, semicolons, quotes) give equal trees and byte-identical wrappers.',
+                note=BOUNDED_NOTE, technique='structural inspection of the grammar graph + bounded differential re-layout'),
+    'C13': dict(cat='other', design='7/C13', text='Bounded relational check on real output: list restriction, permutation, parameter renaming and repeated wrapping leave per-instantiation bindings unchanged.',
+                note=BOUNDED_NOTE, technique='bounded stand-in: relational comparison of real outputs of related inputs'),
+    'C14': dict(cat='other', design='7/C14', text='Exact effect contracts (syntactic): only the declared entry points have I/O / environment / clock / random / id-hash / set-iteration effects and every open() names '
+                     'an encoding. Bounded: byte-identical output trees across processes, hash seeds, working directories, LC_ALL=C, earlier calls on one wrapper object and earlier runs. '
+                     'Concurrent schedules are not explored.', note=BOUNDED_NOTE, technique='effect contracts checked structurally + bounded repeatability scenarios'),
+    'C15': dict(cat='other', design='7/C15', text='Bounded relational check: output with ignore=[X] equals output of the input with X deleted, for both generators (gateway ids masked), for plain classes and template instantiations.',
+                note=BOUNDED_NOTE, technique='bounded stand-in: relational comparison of real outputs (ignore vs delete)'),
+    'C16': dict(cat='other', design='7/C16', text='Bounded scenarios on real files and subprocesses: main file declares / calls one initialiser per part in order and each part equals wrapping its text alone; MATLAB file lists '
+                     'with varied final characters equal one concatenated file; both scripts equal the API over option combinations; namespace option conversion located structurally.',
+                note=BOUNDED_NOTE, technique='bounded scenario checks of composition (API and subprocess)'),
+    'C17': dict(cat='other', design='7/C17', text='Bounded: documentation texts over character-class representatives go through generated Doxygen XML, the real extractor and generator; the emitted literal is decoded by a reference '
+                     'C++ literal decoder; overload matching, empty docstrings for missing documentation and "nothing else changes" are checked.', note=BOUNDED_NOTE,
+                technique='bounded stand-in: escaping round trip with a reference decoder + scenario checks'),
+    'C19': dict(cat='exploration', design='7/C19', text='Bounded exploration with a deterministic ghost cost (matcher invocations) on scaled families (namespace depth, commented headers, template-argument depth, file size), '
+                     'also after a failed parse in the same process.', note='bounds and envelopes are stated in the evidence; an unbounded complexity proof of the third-party matcher is out of reach',
+                technique='bounded cost exploration with call counting (no timing)'),
 }
 NA = {
+    'C18': 'matlab.h is C++ against mex.h / Eigen / GTSAM headers that are not installed; no deductive verifier for C++ is available and the planned clang-AST VC generator '
+           'was not built; a hand-written model of the conversions would be a different technique family (DESIGN.md 7/C18)',
     'C11': 'history property of the execution of generated C++ against matlab.h (ownership, double free, unload); no deductive verifier '
            'for C++ is installed and a model of the gateway would be a different technique family (DESIGN.md 7/C11)',
 }
